@@ -308,6 +308,19 @@ def entity_scheduler(prog):
     return cands[0]
 
 
+def signal_payload_name(prog):
+    """role: the private payload type behind the auto-despawn handle - the `T` of `AutoDespawnSignal(Arc<T>)`"""
+    try:
+        sig = prog.adt_by_name("AutoDespawnSignal")
+        for f in sig["variants"][0]["fields"]:
+            m = re.match(r"^alloc::sync::Arc<([\w:]+)(?:,.*)?>$", f["ty"])
+            if m and m.group(1) in prog.adts:
+                return m.group(1).split("::")[-1]
+    except (AnchorLost, KeyError, IndexError):
+        pass
+    return "AutoDespawnSignalInner"
+
+
 def free_fn(prog, name):
     out = [b for b in prog.bodies if b.kind == "fn" and b.raw.get("name") == name]
     if len(out) != 1:
